@@ -20,7 +20,7 @@ BRANCHY = ('goto', 'goto16', 'goto32', 'ift', 'ifz', 'pswitch', 'sswitch', 'retv
 
 
 class Template:
-    def __init__(self, body, tries=(), sym=(), nt=2, seed=0, misaligned=False):
+    def __init__(self, body, tries=(), sym=(), nt=2, seed=0, misaligned=False, share=False):
         self.body = list(body)          # list of kinds
         self.tries = list(tries)        # list of dict(start=idx of ins, end=idx (exclusive, may be len(body)), handler=idx)
         self.sym = set(sym)             # names of symbolic quantities: 'b<i>' branch of ins i, 't<i>_<k>' switch target,
@@ -28,9 +28,11 @@ class Template:
         self.nt = nt                    # targets per switch payload
         self.seed = seed
         self.misaligned = misaligned
+        self.share = share and len(self.tries) > 1      # all tries use one handler list
 
     def describe(self):
-        return dict(body=self.body, tries=self.tries, symbolic=sorted(self.sym), switch_targets=self.nt)
+        return dict(body=self.body, tries=self.tries, symbolic=sorted(self.sym), switch_targets=self.nt,
+                    shared_handler_list=self.share)
 
 
 def gen_template(rnd, flavour):
@@ -65,9 +67,11 @@ def gen_template(rnd, flavour):
         e = rnd.randrange(s + 1, n)
         tries.append(dict(start=s, end=e, handler=rnd.randrange(0, n)))
         sym |= {'ts0', 'tc0'}
-        if rnd.random() < 0.4 and e + 1 < n:
+        share = False
+        if rnd.random() < 0.5 and e + 1 < n:
             s2 = rnd.randrange(e, n - 1)
             tries.append(dict(start=s2, end=rnd.randrange(s2 + 1, n + 1), handler=rnd.randrange(0, n)))
+            share = rnd.random() < 0.5
     elif flavour == 'switch':
         i = place(rnd.choice(['pswitch', 'sswitch']), 0, n - 2)
         if i is not None:
@@ -91,7 +95,8 @@ def gen_template(rnd, flavour):
         k = place('ifz')
         if k is not None:
             sym.add('b%d' % k)
-    return Template(body, tries, sym, nt=2, seed=rnd.randrange(1 << 30), misaligned=(flavour == 'payloadref' and rnd.random() < 0.5))
+    return Template(body, tries, sym, nt=2, seed=rnd.randrange(1 << 30), misaligned=(flavour == 'payloadref' and rnd.random() < 0.5),
+                    share=(flavour == 'try' and share))
 
 
 class Built:
@@ -196,8 +201,14 @@ def build(t):
         else:
             units += [0x0300, 2, 2, 0, 0x1111, 0x2222]
     assert len(units) == total_units
-    tries = [(val['ts%d' % j], val['tc%d' % j], j) for j in range(len(t.tries))]
-    handlers = [([('Ljava/lang/Exception;', val['th%d' % j])], None) for j in range(len(t.tries))]
+    if t.share:
+        for j in range(1, len(t.tries)):
+            val['th%d' % j] = val['th0']
+        tries = [(val['ts%d' % j], val['tc%d' % j], 0) for j in range(len(t.tries))]
+        handlers = [([('Ljava/lang/Exception;', val['th0'])], None)]
+    else:
+        tries = [(val['ts%d' % j], val['tc%d' % j], j) for j in range(len(t.tries))]
+        handlers = [([('Ljava/lang/Exception;', val['th%d' % j])], None) for j in range(len(t.tries))]
     A = Cls('LA;', dmethods=[Mth('f', 'V', (), 0x9, Code(4, 0, 0, lambda P: units, tries=tries, handlers=handlers))])
     blob, P, L = dexasm.assemble([A])
     items = list(blob)
@@ -236,7 +247,7 @@ def build(t):
                 S[name] = SInt(z3.ZeroExt(W - 16, z3.Concat(z3.Extract(7, 0, bs[1].e), z3.Extract(7, 0, bs[0].e))), 0, 0xffff)
             else:
                 # handler list j: [size=1][type uleb 1 byte][addr uleb 1 byte]; lists are laid out after the list count byte
-                o = L.handlers_off[('LA;', 'f')] + 1 + 3 * j + 2
+                o = L.handlers_off[('LA;', 'f')] + 1 + 3 * (0 if t.share else j) + 2
                 b = fresh_byte(name)
                 items[o] = b
                 pre.append(b.e < 0x80)
@@ -248,6 +259,8 @@ def build(t):
 
     def q(name):
         """z3 term (code units) of a quantity, symbolic or concrete"""
+        if t.share and name.startswith('th'):
+            name = 'th0'
         return S[name].e if name in S else z3.BitVecVal(val[name], W)
     B.q = q
     # validity preconditions: every target is a body instruction start; tries are well formed and ordered
@@ -356,9 +369,28 @@ def setup():
 FLAVOURS = ('branches', 'try', 'switch', 'handler', 'payloadref')
 
 
+def curated():
+    """fixed templates that make sure every instruction kind and try layout is exercised in every run"""
+    T = Template
+    return [
+        T(['c1', 'goto32', 'c2', 'ifz', 'c1', 'goto', 'c3', 'retv'], sym={'b1', 'b3', 'b5'}, seed=1),
+        T(['goto16', 'c1', 'ift', 'nop', 'throw', 'c2', 'ret'], sym={'b0', 'b2'}, seed=2),
+        T(['c2', 'pswitch', 'c1', 'goto32', 'c3', 'retv'], sym={'t1_0', 't1_1', 'b3'}, seed=3),
+        T(['c1', 'sswitch', 'c2', 'ifz', 'nop', 'ret'], sym={'t1_0', 't1_1', 'b3'}, seed=4),
+        T(['c1', 'c2', 'ifz', 'c1', 'c3', 'c1', 'retv'], tries=[dict(start=0, end=2, handler=5), dict(start=3, end=5, handler=5)],
+          sym={'ts1', 'tc1', 'b2'}, seed=5, share=True),
+        T(['c1', 'c2', 'goto32', 'c1', 'c3', 'c1', 'throw'], tries=[dict(start=0, end=2, handler=6), dict(start=3, end=5, handler=5)],
+          sym={'ts0', 'tc0', 'th1'}, seed=6),
+        T(['nop', 'ift', 'c2', 'c2', 'c1', 'ret'], tries=[dict(start=1, end=4, handler=4)], sym={'ts0', 'tc0', 'b1'}, seed=7),
+        T(['c1', 'fill', 'c1', 'pswitch', 'ifz', 'retv'], sym={'r1', 'r3', 'b4'}, seed=8),
+        T(['c1', 'sswitch', 'c1', 'fill', 'c1', 'retv'], sym={'r1', 'r3'}, seed=9, misaligned=True),
+    ]
+
+
 def templates(seed, count):
     rnd = random.Random(seed * 7919 + 17)
-    out = []
+    out = curated()
+    count = max(0, count - len(out))
     for i in range(count):
         out.append(gen_template(rnd, FLAVOURS[i % len(FLAVOURS)]))
     return out
@@ -579,7 +611,7 @@ def job(jc, spec):
 
 def run(ctx, which):
     setup()
-    count = {'quick': 20, 'thorough': 150}[ctx.tier]
+    count = {'quick': 18, 'thorough': 150}[ctx.tier]
     ts = templates(ctx.seed, count)
     if which == 'C40':
         ts = [t for t in ts if any(k in ('pswitch', 'sswitch', 'fill') for k in t.body)] + \
@@ -591,7 +623,7 @@ def run(ctx, which):
     ctx.bounds = dict(templates=len(ts), slots='5..8 body instructions + payloads', symbolic_per_template='<= 3-4 quantities: '
                       'branch offsets (8/16/32 bit, full width), switch targets (32 bit), payload reference (32 bit), try '
                       'start_addr (32 bit) / insn_count (16 bit) / handler address (uleb 1 byte)',
-                      tier_note='quick 20 / thorough 150 seeded templates over 5 flavours')
+                      tier_note='9 curated templates (every instruction kind, shared and distinct handler lists) + seeded ones: quick 18 / thorough 150 in total, 5 flavours')
     ctx.stubs = ['SymStruct / SymIO for the whole DEX parse', 'adler32 stub returning the skeleton checksum', 'NullLogger']
     ctx.assumptions = ['well-formed code: every branch / switch target and handler address is an instruction start of the '
                        'method body, tries are non-empty, ordered and end on an instruction boundary',
